@@ -1,18 +1,17 @@
 SPECIFICATION Spec
 CONSTANTS
-  W <- MCW
+  W <- MCW1
   Scripts <- MCScripts
   SubmitFail <- MCSubmitFail
-  Faults <- MCFaults
+  Faults <- MCFaultsCrash
   StopAt <- NoStop
-  CmdBudget = 1
-  CmdKinds = {"hold", "release", "holdpt", "relall", "stoppt", "stopnow"}
-  SetOuts = {}
+  CmdBudget = 2
+  CmdKinds = {"trigger", "stopnow"}
+  SetOuts = {"succeeded", "x", "failed", "started"}
 INVARIANT TypeOK
 INVARIANT C01_SubmitOnlyIfSatisfied
 INVARIANT C01_OnSequenceInBounds
 INVARIANT C02_RetryBound
-INVARIANT C02_NoDuplicateSubmitNum
 INVARIANT C02_FailOutputOnlyWhenNoRetry
 INVARIANT C03_ShutdownQuiescent
 INVARIANT C03_StallIsReal
